@@ -50,6 +50,13 @@ theorem last_setter_wins (m : HeaderMode) :
     headerForm (stepMode m (.setEncoded false)) = .raw := by
   simp [stepMode, headerForm]
 
+/-- asking for an encoded header never withdraws a header encryption asked for earlier: after
+    `set_encoded_header_mode(True)` the header is encrypted exactly if it was going to be before -/
+theorem encoded_on_keeps_encryption (m : HeaderMode) :
+    (headerForm (stepMode m (.setEncoded true)) = .encrypted ↔ m.encrypted = true) ∧
+    (stepMode m (.setEncoded true)).encrypted = m.encrypted := by
+  cases h : m.encrypted <;> simp [stepMode, headerForm, h]
+
 /-- no password, no delivery: with an AES coder and no password the decoder is refused before
     a single byte is decoded -/
 theorem no_password_no_delivery (coders : List Bytes) (h : aesId ∈ coders) :
